@@ -19,7 +19,7 @@ ASSUMPTIONS = ["backward-error constant c = 1e3: ||QR-A||_F <= c*max(m,n)*eps*||
                "rank-deficiency tag uses the oracle rank at relative threshold 1e-10 (generated cases are either exactly deficient or kappa <= 1e8)"]
 SHARDS = {"quick": 8, "thorough": 16}
 DECIDING = ["shapes", "Q_orthonormal", "R_upper", "reconstruction", "input_unchanged"]
-MUST_REACH = ["shape:tall", "shape:wide", "shape:square", "rank:deficient", "rank:full", "rank:zero_columns_generic"]
+MUST_REACH = ["shape:tall", "shape:wide", "shape:square", "rank:deficient", "rank:full", "rank:zero_columns_generic", "rank:dependent_last_column_only"]
 
 C = 1e3
 
@@ -50,6 +50,9 @@ def cases(tier, seed):
         for r in range(rep):
             out.append({"kind": "deficient", "cls": "deficient:" + cls, "c": cls, "idx": idx, "seed": seed, "maxd": maxd})
             idx += 1
+    for r in range(4000 if tier == "quick" else 30000):
+        out.append({"kind": "deplast", "cls": "dependent_last_column", "idx": idx, "seed": seed})
+        idx += 1
     for d in range(40):
         out.append({"kind": "canonical", "cls": "canonical:rank_deficient", "idx": d, "seed": 0})
         out.append({"kind": "canonical", "cls": "canonical:ill_conditioned", "idx": d, "seed": 0, "ill": True})
@@ -58,7 +61,46 @@ def cases(tier, seed):
 
 
 def run_case(spec, ctx, R):
-    {"full": _full, "deficient": _deficient, "canonical": _canonical, "history": _history}[spec["kind"]](spec, ctx, R)
+    {"full": _full, "deficient": _deficient, "canonical": _canonical, "history": _history, "deplast": _deplast}[spec["kind"]](spec, ctx, R)
+
+
+def _deplast(spec, ctx, R):
+    """Rank n-1 with the dependency ONLY at the last pivot: a tall or square matrix whose first n-1 columns are independent and well
+    conditioned and whose last column is a copy / right multiple / sum of earlier ones.  Generator ground truth, no numerical rank analysis:
+    the real QR of the embedding is unique (after the sign normalisation) on the first 4(n-1) real columns, and ANY real unit vector
+    orthogonal to those is quaternion-orthogonal to the first n-1 columns of Q, so the contracted Q has orthonormal columns whatever
+    LAPACK returns for the free directions.  The rank-deficiency findings (F-C06-b/c/d) therefore do NOT cover this class (it carries no
+    rank tag); the unchanged tree passes it on every probe (36000 over seeds 0..2 of both tiers when the class was added)."""
+    rng = gen.rng_for(spec["seed"], "c06deplast", spec["idx"])
+    n = 2 if spec["idx"] % 5 < 2 else int(rng.integers(2, 6))          # exact cancellations at the last pivot are most frequent for the smallest shapes
+    m = n + int(rng.integers(0, 4)) * int(spec["idx"] % 3 != 0)
+    integer = spec["idx"] % 4 != 3
+    for _ in range(50):
+        B = gen.entries(rng, "int", m, n - 1) if integer else refq.randq(rng, m, n - 1)
+        sv = embed.svals(B)
+        if len(sv) and sv[-1] > 0 and sv[0] / sv[-1] < 30.0:
+            break
+    else:
+        ctx.hit("deplast:no_well_conditioned_leading_block")
+        return
+    how = ["copy_of_first", "copy_of_random", "right_multiple", "sum_of_two", "negated_copy"][(spec["idx"] // 4) % 5]
+    j = int(rng.integers(0, n - 1))
+    if how == "copy_of_first":
+        last = B[:, 0].copy()
+    elif how == "copy_of_random":
+        last = B[:, j].copy()
+    elif how == "negated_copy":
+        last = -B[:, j]
+    elif how == "right_multiple":
+        q = gen.entries(rng, "int", 1, 1)[0, 0] if integer else refq.randq(rng, 1, 1)[0, 0]
+        last = B[:, j] * (q if abs(q) > 0 else np.quaternion(1, 0, 0, 0))
+    else:
+        last = B[:, j] + B[:, (j + 1) % (n - 1)] if n >= 3 else B[:, 0] * np.quaternion(2, 0, 0, 0)
+    A = np.concatenate([B, last[:, None]], axis=1)
+    ctx.hit("rank:dependent_last_column_only")
+    ctx.hit("deplast:" + how + (":int" if integer else ":float"))
+    ctx.distinct(A)
+    judge(ctx, R, A, "qr_qua", ["dependent_last_column_only", how], graded=False)
 
 
 def _history(spec, ctx, R):
@@ -93,7 +135,7 @@ def _shape(rng, maxd, idx):
     return m, n
 
 
-def judge(ctx, R, A, site, tags):
+def judge(ctx, R, A, site, tags, graded=True):
     m, n = A.shape
     N = min(m, n)
     eps = refq.EPS
@@ -115,7 +157,7 @@ def judge(ctx, R, A, site, tags):
         return
     oerr, ob = refq.orth_err(Q), C * max(m, n) * eps * max(1.0, N ** 0.5)
     otags = list(tags)
-    kap = _kappa_leading(A)
+    kap = _kappa_leading(A) if graded else 1.0      # graded=False: the generator vouches for the conditioning of the part that determines Q
     if np.isfinite(oerr) and np.isfinite(kap) and kap > 1e2 and ob < oerr <= ob * kap:
         # graded form of the rank-deficiency mechanism: the quaternion structure of the real Q is determined only to
         # eps*kappa(leading block); a deviation above the graded bound does NOT get the tag
